@@ -12,6 +12,7 @@ def run(ctx):
     actorcheck.run_actor(ctx, "C10")
     cov = dict(ctx.coverage)
     conncheck.run_conn(ctx, {"C10"})
+    conncheck.run_latereader(ctx)
     # keep both coverage records
     conn_cov = dict(ctx.coverage)
     ctx.coverage.clear()
